@@ -24,3 +24,20 @@ func VerifTables(i IPAM) (allocated, unallocated map[string]FloatingIP, pools []
 
 // VerifPool returns the pool a FloatingIP belongs to.
 func VerifPool(f FloatingIP) *FloatingIPPool { return f.pool }
+
+// VerifTryTables is VerifTables without blocking: ok is false if the cache lock is currently held by a writer.
+func VerifTryTables(i IPAM) (allocated, unallocated map[string]FloatingIP, ok bool) {
+	ci, isCrd := i.(*crdIpam)
+	if !isCrd || !ci.cacheLock.TryRLock() {
+		return nil, nil, false
+	}
+	defer ci.cacheLock.RUnlock()
+	allocated, unallocated = map[string]FloatingIP{}, map[string]FloatingIP{}
+	for k, v := range ci.allocatedFIPs {
+		allocated[k] = *v
+	}
+	for k, v := range ci.unallocatedFIPs {
+		unallocated[k] = *v
+	}
+	return allocated, unallocated, true
+}
